@@ -1,4 +1,4 @@
 SPECIFICATION Spec
-CONSTANT Positions = {"let", "assign", "arg", "ret", "field", "optional", "elem"}
+CONSTANT Positions = {"ret_after_lit", "closurearg", "append", "let", "assign", "arg", "ret", "field", "optional", "elem"}
 INVARIANT EmitCase
 CHECK_DEADLOCK FALSE
